@@ -116,7 +116,13 @@ func profileConfig(p string, seed uint64) RunConfig {
 		case 4:
 			c.TxSeqStart = r.Uint32()
 		}
-		if r.IntN(4) == 0 {
+		if r.IntN(40) == 0 {
+			// the largest retry count the configuration can express (beyond the 0..3 the
+			// property quantifies over, but it costs nothing in simulated time)
+			c.MaxRetrans = 255
+			c.RetransMs = 137
+			c.Steps = 8 + r.IntN(8)
+		} else if r.IntN(4) == 0 {
 			// a slow data plane against short timers: retransmission timers expire, and
 			// answers arrive, while the event loop is inside a turn
 			c.KernLatency = pick(r, 40, 150)
@@ -286,7 +292,7 @@ func newGen(s *Sim) *Gen {
 	case "C04":
 		g.w = map[string]int{"hb": 1, "assoc": 1, "est": 10, "mod": 4, "del": 8, "reassoc": 3, "probe": 10, "krep": 3, "ansseid0": 3, "adv": 1}
 	case "C05":
-		g.w = map[string]int{"hb": 1, "est": 10, "mod": 12, "del": 5, "reassoc": 3, "krep": 4, "kbuf": 4, "ansseid0": 3, "takeover": 1, "adv": 1}
+		g.w = map[string]int{"hb": 1, "est": 10, "mod": 12, "del": 5, "reassoc": 3, "krep": 4, "kbuf": 4, "ansseid0": 3, "takeover": 3, "adv": 1}
 		g.w["ans"] = 2
 		if s.cfg.Seed%3 == 0 {
 			// several sessions sharing period groups: one session leaving a group must not
@@ -531,6 +537,7 @@ func (g *Gen) rule(kind string, id uint32, update bool) RuleIntent {
 				if g.chance(0.5) {
 					r.FTEID = u32p(uint32(g.bv(32)))
 					r.FTEIDIP = g.ip4()
+					r.FTEID6 = g.chance(0.2)
 				}
 				if g.chance(0.6) {
 					ip := g.ip4()
@@ -1080,6 +1087,11 @@ func (g *Gen) one() (Action, bool) {
 			return Action{}, false
 		}
 		in := &MsgIntent{T: "mod", Seq: g.seq(mm), Slot: sl, NodeID: "10.1.1." + string(rune('1'+g.intn(8)))}
+		if g.chance(0.3) {
+			// an SMF that always fills in the optional Node ID: the one the session belongs to
+			in.NodeID = x.Node
+			return Action{Op: "send", SMF: mm.Idx, Msg: in}, true
+		}
 		if _, taken := s.model.nodes[in.NodeID]; taken {
 			return Action{}, false
 		}
